@@ -24,6 +24,7 @@ def one_value(bc, b, alpha, r):
 
 
 def _drive(args):
+    isoc.ALLOW_UNENCODABLE = True
     seed, cfgspec, codec, kind, lo, hi = args
     bc = isocheck.get_config(cfgspec)
     alpha = isoc.alphabet(codec)
